@@ -242,8 +242,138 @@ pub proof fn lemma_chain_divide<A: View, B: View>(sa: A::S, sb: B::S, x: T)
 pub proof fn lemma_chain_tanh<V: View>(vs: V::S, x: T)
     ensures Tanh::<V>::step(vs, x) == V::step(vs, x), Tanh::<V>::out(vs).is_some() == V::out(vs).is_some(),
 {}
-// whole histories: a chain W<V> run on raw inputs h has, as inner state, exactly V run on h
+// whole histories: for every wrapper W and every inner view type V, the inner state of the chain W<V> run on raw inputs h is exactly V run on h
+// (every raw input reaches the inner view exactly once per update, in order)
+pub proof fn lemma_chain_history_alma<V: View>(vs: V::S, o: AlmaOwn, h: Seq<T>)
+    ensures run::<Alma<V>>((vs, o), h).0 == run::<V>(vs, h)
+    decreases h.len()
+{ if h.len() > 0 { lemma_chain_history_alma::<V>(vs, o, h.drop_last()); } }
+pub proof fn lemma_chain_history_binary_entropy<V: View>(vs: V::S, o: BinaryEntropyOwn, h: Seq<T>)
+    ensures run::<BinaryEntropy<V>>((vs, o), h).0 == run::<V>(vs, h)
+    decreases h.len()
+{ if h.len() > 0 { lemma_chain_history_binary_entropy::<V>(vs, o, h.drop_last()); } }
+pub proof fn lemma_chain_history_center_of_gravity<V: View>(vs: V::S, o: CenterOfGravityOwn, h: Seq<T>)
+    ensures run::<CenterOfGravity<V>>((vs, o), h).0 == run::<V>(vs, h)
+    decreases h.len()
+{ if h.len() > 0 { lemma_chain_history_center_of_gravity::<V>(vs, o, h.drop_last()); } }
+pub proof fn lemma_chain_history_correlation_trend_indicator<V: View>(vs: V::S, o: CorrelationTrendIndicatorOwn, h: Seq<T>)
+    ensures run::<CorrelationTrendIndicator<V>>((vs, o), h).0 == run::<V>(vs, h)
+    decreases h.len()
+{ if h.len() > 0 { lemma_chain_history_correlation_trend_indicator::<V>(vs, o, h.drop_last()); } }
+pub proof fn lemma_chain_history_cumulative<V: View>(vs: V::S, o: CumulativeOwn, h: Seq<T>)
+    ensures run::<Cumulative<V>>((vs, o), h).0 == run::<V>(vs, h)
+    decreases h.len()
+{ if h.len() > 0 { lemma_chain_history_cumulative::<V>(vs, o, h.drop_last()); } }
+pub proof fn lemma_chain_history_cyber_cycle<V: View>(vs: V::S, o: CyberCycleOwn, h: Seq<T>)
+    ensures run::<CyberCycle<V>>((vs, o), h).0 == run::<V>(vs, h)
+    decreases h.len()
+{ if h.len() > 0 { lemma_chain_history_cyber_cycle::<V>(vs, o, h.drop_last()); } }
+pub proof fn lemma_chain_history_drawdown<V: View>(vs: V::S, o: DrawdownOwn, h: Seq<T>)
+    ensures run::<Drawdown<V>>((vs, o), h).0 == run::<V>(vs, h)
+    decreases h.len()
+{ if h.len() > 0 { lemma_chain_history_drawdown::<V>(vs, o, h.drop_last()); } }
+pub proof fn lemma_chain_history_ehlers_fisher_transform<V: View, M: View>(vs: V::S, o: EhlersFisherTransformOwn<M>, h: Seq<T>)
+    ensures run::<EhlersFisherTransform<V, M>>((vs, o), h).0 == run::<V>(vs, h)
+    decreases h.len()
+{ if h.len() > 0 { lemma_chain_history_ehlers_fisher_transform::<V, M>(vs, o, h.drop_last()); } }
+pub proof fn lemma_chain_history_ema<V: View>(vs: V::S, o: EmaOwn, h: Seq<T>)
+    ensures run::<Ema<V>>((vs, o), h).0 == run::<V>(vs, h)
+    decreases h.len()
+{ if h.len() > 0 { lemma_chain_history_ema::<V>(vs, o, h.drop_last()); } }
+pub proof fn lemma_chain_history_gte<V: View>(vs: V::S, o: GTEOwn, h: Seq<T>)
+    ensures run::<GTE<V>>((vs, o), h).0 == run::<V>(vs, h)
+    decreases h.len()
+{ if h.len() > 0 { lemma_chain_history_gte::<V>(vs, o, h.drop_last()); } }
+pub proof fn lemma_chain_history_hl_normalizer<V: View>(vs: V::S, o: HLNormalizerOwn, h: Seq<T>)
+    ensures run::<HLNormalizer<V>>((vs, o), h).0 == run::<V>(vs, h)
+    decreases h.len()
+{ if h.len() > 0 { lemma_chain_history_hl_normalizer::<V>(vs, o, h.drop_last()); } }
+pub proof fn lemma_chain_history_laguerre_filter<V: View>(vs: V::S, o: LaguerreFilterOwn, h: Seq<T>)
+    ensures run::<LaguerreFilter<V>>((vs, o), h).0 == run::<V>(vs, h)
+    decreases h.len()
+{ if h.len() > 0 { lemma_chain_history_laguerre_filter::<V>(vs, o, h.drop_last()); } }
+pub proof fn lemma_chain_history_laguerrersi<V: View>(vs: V::S, o: LaguerreRSIOwn, h: Seq<T>)
+    ensures run::<LaguerreRSI<V>>((vs, o), h).0 == run::<V>(vs, h)
+    decreases h.len()
+{ if h.len() > 0 { lemma_chain_history_laguerrersi::<V>(vs, o, h.drop_last()); } }
+pub proof fn lemma_chain_history_ln_return<V: View>(vs: V::S, o: LnReturnOwn, h: Seq<T>)
+    ensures run::<LnReturn<V>>((vs, o), h).0 == run::<V>(vs, h)
+    decreases h.len()
+{ if h.len() > 0 { lemma_chain_history_ln_return::<V>(vs, o, h.drop_last()); } }
+pub proof fn lemma_chain_history_lte<V: View>(vs: V::S, o: LTEOwn, h: Seq<T>)
+    ensures run::<LTE<V>>((vs, o), h).0 == run::<V>(vs, h)
+    decreases h.len()
+{ if h.len() > 0 { lemma_chain_history_lte::<V>(vs, o, h.drop_last()); } }
+pub proof fn lemma_chain_history_max<V: View>(vs: V::S, o: MaxOwn, h: Seq<T>)
+    ensures run::<Max<V>>((vs, o), h).0 == run::<V>(vs, h)
+    decreases h.len()
+{ if h.len() > 0 { lemma_chain_history_max::<V>(vs, o, h.drop_last()); } }
+pub proof fn lemma_chain_history_min<V: View>(vs: V::S, o: MinOwn, h: Seq<T>)
+    ensures run::<Min<V>>((vs, o), h).0 == run::<V>(vs, h)
+    decreases h.len()
+{ if h.len() > 0 { lemma_chain_history_min::<V>(vs, o, h.drop_last()); } }
+pub proof fn lemma_chain_history_myrsi<V: View>(vs: V::S, o: MyRSIOwn, h: Seq<T>)
+    ensures run::<MyRSI<V>>((vs, o), h).0 == run::<V>(vs, h)
+    decreases h.len()
+{ if h.len() > 0 { lemma_chain_history_myrsi::<V>(vs, o, h.drop_last()); } }
+pub proof fn lemma_chain_history_noise_elimination_technology<V: View>(vs: V::S, o: NoiseEliminationTechnologyOwn, h: Seq<T>)
+    ensures run::<NoiseEliminationTechnology<V>>((vs, o), h).0 == run::<V>(vs, h)
+    decreases h.len()
+{ if h.len() > 0 { lemma_chain_history_noise_elimination_technology::<V>(vs, o, h.drop_last()); } }
+pub proof fn lemma_chain_history_polarized_fractal_efficiency<V: View, M: View>(vs: V::S, o: PolarizedFractalEfficiencyOwn<M>, h: Seq<T>)
+    ensures run::<PolarizedFractalEfficiency<V, M>>((vs, o), h).0 == run::<V>(vs, h)
+    decreases h.len()
+{ if h.len() > 0 { lemma_chain_history_polarized_fractal_efficiency::<V, M>(vs, o, h.drop_last()); } }
+pub proof fn lemma_chain_history_re_flex<V: View>(vs: V::S, o: ReFlexOwn, h: Seq<T>)
+    ensures run::<ReFlex<V>>((vs, o), h).0 == run::<V>(vs, h)
+    decreases h.len()
+{ if h.len() > 0 { lemma_chain_history_re_flex::<V>(vs, o, h.drop_last()); } }
+pub proof fn lemma_chain_history_roc<V: View>(vs: V::S, o: RocOwn, h: Seq<T>)
+    ensures run::<Roc<V>>((vs, o), h).0 == run::<V>(vs, h)
+    decreases h.len()
+{ if h.len() > 0 { lemma_chain_history_roc::<V>(vs, o, h.drop_last()); } }
+pub proof fn lemma_chain_history_roofing_filter<V: View>(vs: V::S, o: RoofingFilterOwn, h: Seq<T>)
+    ensures run::<RoofingFilter<V>>((vs, o), h).0 == run::<V>(vs, h)
+    decreases h.len()
+{ if h.len() > 0 { lemma_chain_history_roofing_filter::<V>(vs, o, h.drop_last()); } }
+pub proof fn lemma_chain_history_rsi<V: View>(vs: V::S, o: RsiOwn, h: Seq<T>)
+    ensures run::<Rsi<V>>((vs, o), h).0 == run::<V>(vs, h)
+    decreases h.len()
+{ if h.len() > 0 { lemma_chain_history_rsi::<V>(vs, o, h.drop_last()); } }
 pub proof fn lemma_chain_history_sma<V: View>(vs: V::S, o: SmaOwn, h: Seq<T>)
     ensures run::<Sma<V>>((vs, o), h).0 == run::<V>(vs, h)
     decreases h.len()
 { if h.len() > 0 { lemma_chain_history_sma::<V>(vs, o, h.drop_last()); } }
+pub proof fn lemma_chain_history_super_smoother<V: View>(vs: V::S, o: SuperSmootherOwn, h: Seq<T>)
+    ensures run::<SuperSmoother<V>>((vs, o), h).0 == run::<V>(vs, h)
+    decreases h.len()
+{ if h.len() > 0 { lemma_chain_history_super_smoother::<V>(vs, o, h.drop_last()); } }
+pub proof fn lemma_chain_history_trend_flex<V: View>(vs: V::S, o: TrendFlexOwn, h: Seq<T>)
+    ensures run::<TrendFlex<V>>((vs, o), h).0 == run::<V>(vs, h)
+    decreases h.len()
+{ if h.len() > 0 { lemma_chain_history_trend_flex::<V>(vs, o, h.drop_last()); } }
+pub proof fn lemma_chain_history_vst<V: View>(vs: V::S, o: VstOwn, h: Seq<T>)
+    ensures run::<Vst<V>>((vs, o), h).0 == run::<V>(vs, h)
+    decreases h.len()
+{ if h.len() > 0 { lemma_chain_history_vst::<V>(vs, o, h.drop_last()); } }
+pub proof fn lemma_chain_history_vsct<V: View>(vs: V::S, o: VsctOwn, h: Seq<T>)
+    ensures run::<Vsct<V>>((vs, o), h).0 == run::<V>(vs, h)
+    decreases h.len()
+{ if h.len() > 0 { lemma_chain_history_vsct::<V>(vs, o, h.drop_last()); } }
+pub proof fn lemma_chain_history_welford_online<V: View>(vs: V::S, o: WelfordOnlineOwn, h: Seq<T>)
+    ensures run::<WelfordOnline<V>>((vs, o), h).0 == run::<V>(vs, h)
+    decreases h.len()
+{ if h.len() > 0 { lemma_chain_history_welford_online::<V>(vs, o, h.drop_last()); } }
+pub proof fn lemma_chain_history_welford_rolling<V: View>(vs: V::S, o: WelfordRollingOwn, h: Seq<T>)
+    ensures run::<WelfordRolling<V>>((vs, o), h).0 == run::<V>(vs, h)
+    decreases h.len()
+{ if h.len() > 0 { lemma_chain_history_welford_rolling::<V>(vs, o, h.drop_last()); } }
+// binary combinators: both children see the whole raw history
+pub proof fn lemma_chain_history_add<A: View, B: View>(sa: A::S, sb: B::S, h: Seq<T>)
+    ensures run::<Add<A, B>>((sa, sb), h) == (run::<A>(sa, h), run::<B>(sb, h))
+    decreases h.len()
+{ if h.len() > 0 { lemma_chain_history_add::<A, B>(sa, sb, h.drop_last()); } }
+pub proof fn lemma_chain_history_divide<A: View, B: View>(sa: A::S, sb: B::S, h: Seq<T>)
+    ensures run::<Divide<A, B>>((sa, sb), h) == (run::<A>(sa, h), run::<B>(sb, h))
+    decreases h.len()
+{ if h.len() > 0 { lemma_chain_history_divide::<A, B>(sa, sb, h.drop_last()); } }
